@@ -425,9 +425,10 @@ Inductive cop :=
     (* same, with an HA-synced record (subscriber mk, block mb) waiting in opdb; dp_ok = outcome of the add *)
 | CRelease (sid k : N) (del_ok : list bool)
     (* handleSessionRelease; del_ok = outcome of the dataplane delete of each mapping, whenever it completes *)
-| CRestorePresent (sid mk : N) (mb : block) (bulk : N)
+| CRestorePresent (sid mk : N) (mb : block) (bulk : N) (obs : option block)
     (* restoreFromOpDB, session present; bulk = 0 reprogram ok (commitRestoredPBA), 1 per-mapping error,
-       2 transport error *)
+       2 transport error.  After a failed reprogram nothing is committed and scanNonPBASessions treats the session
+       as a new activation (obs = the block that activation is given, if any) *)
 | CRestoreDegraded (mk : N) (mb : block)     (* restoreFromOpDB, session cache miss but access record retained *)
 | CComplete.                                 (* deferred dataplane delete callbacks fire (any order) *)
 
@@ -474,8 +475,9 @@ Definition cstep (v : variant) (c : cfg) (s : comp) (o : cop) : comp * out :=
                    cp_rev := fold_left (fun ri b => rev_remove ri (b_ip b) (b_start b)) bl (cp_rev s);
                    cp_sess := sess_del sid (cp_sess s) |}, ROk)
         end
-  | CRestorePresent sid mk mb bulk =>
-      if negb (bulk =? 0) then (s, ROk)       (* nothing is committed locally; the entry is kept for a retry *)
+  | CRestorePresent sid mk mb bulk obs =>
+      if negb (bulk =? 0) then
+        if existsb (N.eqb sid) (cp_sess s) then (s, ROk) else pba_activate v c s sid mk true obs
       else
       match restore v c (cp_pool s) mk mb true with
       | Some p' => (commit_mapping v s p' sid mk mb, ROk)
